@@ -35,62 +35,38 @@ theorem walkEnter_norecurse (p : Node → Bool) (back self_ : Bool) (t : Node) :
     walkEnter p back false self_ t = ids (((if self_ then [t] else []) ++ orient back t.kids).filter p) :=
   walkEnter_norec_eq p back self_ t
 
-/-- `walk(all, 'leave')`: exactly the postorder list filtered by `all` — children before parents — PROVIDED the walk
-root itself passes the filter (or `self_=False`).  Full statement wanted: `walkLeave p back true self_ t =
-ids ((postL back t.kids ++ if self_ then [t] else []).filter p)` for every `p`; it is false of the code, see
-`walkLeave_postorder_false`. -/
-theorem walkLeave_postorder (p : Node → Bool) (back self_ : Bool) (t : Node) (h : self_ = false ∨ p t = true) :
+/-- `walk(all, 'leave')`: exactly the postorder list filtered by `all` — children before parents — for every filter,
+direction and tree; with `self_=False` without the root.  (Before the repair of finding C14-F1 the root was yielded
+regardless of the filter and this statement was false.) -/
+theorem walkLeave_postorder (p : Node → Bool) (back self_ : Bool) (t : Node) :
     walkLeave p back true self_ t = ids ((postL back t.kids ++ (if self_ then [t] else [])).filter p) := by
   rw [walkLeave_eq]
-  rcases h with h | h
-  · subst h; simp
-  · cases self_ <;> simp [h, ids]
+  cases self_ <;> cases h : p t <;> simp [h, ids]
 
-/-- exact characterisation for every filter: the final yield of the walk root is not subject to `all` -/
-theorem walkLeave_exact (p : Node → Bool) (back self_ : Bool) (t : Node) :
-    walkLeave p back true self_ t = ids ((postL back t.kids).filter p) ++ (if self_ then [t.id] else []) :=
-  walkLeave_eq p back self_ t
-
-/-- The full-strength statement fails: with a filter the root does not pass, `on='leave'` still yields the root
-(`walk(Name, 'leave')` on `Module[Expr[Name]]` yields `[Name, Module]`).  Witness of finding C14-F1. -/
-theorem walkLeave_postorder_false :
-    ∃ (p : Node → Bool) (t : Node),
-      walkLeave p false true true t ≠ ids ((postL false t.kids ++ [t]).filter p) :=
-  ⟨fun n => n.kind == 1, .mk 0 0 0 0 [.mk 1 1 0 1 []], by
-    rw [walkLeave_eq]; decide⟩
+/-- with `self_=True`: the filtered postorder of the whole tree -/
+theorem walkLeave_postorder_self (p : Node → Bool) (back : Bool) (t : Node) :
+    walkLeave p back true true t = ids ((post back t).filter p) :=
+  walkLeave_self p back t
 
 /-- `walk(all, 'both')`: every node that passes the filter is yielded on entering and on leaving, its descendants'
-yields in between (the bracketed order filtered by `all`), PROVIDED the root passes the filter or `self_=False`. -/
-theorem walkBoth_bracket (p : Node → Bool) (back : Bool) (t : Node) (h : p t = true) :
+yields in between (the bracketed order filtered by `all`), for every filter, direction and tree — the root included. -/
+theorem walkBoth_bracket (p : Node → Bool) (back : Bool) (t : Node) :
     walkBoth p back true true t = ids2 ((brk back t).filter (fun x => p x.1)) :=
-  walkBoth_self p back t h
+  walkBoth_self p back t
 
 theorem walkBoth_bracket_noself (p : Node → Bool) (back : Bool) (t : Node) :
     walkBoth p back true false t = ids2 ((brkL back t.kids).filter (fun x => p x.1)) := by
   rw [walkBoth_eq]; simp
 
-/-- exact characterisation: `(root, False)` is subject to `all`, the closing `(root, True)` is not -/
-theorem walkBoth_exact (p : Node → Bool) (back self_ : Bool) (t : Node) :
-    walkBoth p back true self_ t = (if self_ && p t then [(t.id, false)] else [])
-      ++ ids2 ((brkL back t.kids).filter (fun x => p x.1)) ++ (if self_ then [(t.id, true)] else []) :=
-  walkBoth_eq p back self_ t
-
-/-- With a filter the root does not pass, `on='both'` yields an unmatched closing `(root, True)`. Witness of C14-F1. -/
-theorem walkBoth_bracket_false :
-    ∃ (p : Node → Bool) (t : Node),
-      walkBoth p false true true t ≠ ids2 ((brk false t).filter (fun x => p x.1)) :=
-  ⟨fun n => n.kind == 1, .mk 0 0 0 0 [.mk 1 1 0 1 []], by
-    rw [walkBoth_eq]; decide⟩
-
 /-- `recurse=False` for the other two modes -/
 theorem walkLeave_norecurse (p : Node → Bool) (back self_ : Bool) (t : Node) :
-    walkLeave p back false self_ t = ids ((orient back t.kids).filter p) ++ (if self_ then [t.id] else []) :=
+    walkLeave p back false self_ t = ids ((orient back t.kids).filter p) ++ (if self_ && p t then [t.id] else []) :=
   walkLeave_norec_eq p back self_ t
 
 theorem walkBoth_norecurse (p : Node → Bool) (back self_ : Bool) (t : Node) :
     walkBoth p back false self_ t = (if self_ && p t then [(t.id, false)] else [])
       ++ ((orient back t.kids).flatMap (fun n => if p n then [(n.id, false), (n.id, true)] else []))
-      ++ (if self_ then [(t.id, true)] else []) :=
+      ++ (if self_ && p t then [(t.id, true)] else []) :=
   walkBoth_norec_eq p back self_ t
 
 /-- children before parents: the postorder is the reversed preorder of the opposite direction -/
@@ -219,6 +195,11 @@ example : walkLeave (fun _ => true) false true true ex = [1, 3, 4, 2, 5, 0] := b
 example : walkBoth (fun _ => true) false true true ex
     = [(0, false), (1, false), (1, true), (2, false), (3, false), (3, true), (4, false), (4, true), (2, true),
        (5, false), (5, true), (0, true)] := by
+  rw [walkBoth_eq]; decide
+/-- the former witness of C14-F1 (`walk(Name, 'leave'|'both')` on `Module[Name]`): the root is filtered out now -/
+example : walkLeave (fun n => n.kind == 1) false true true (.mk 0 0 0 0 [.mk 1 1 0 1 []]) = [1] := by
+  rw [walkLeave_eq]; decide
+example : walkBoth (fun n => n.kind == 1) false true true (.mk 0 0 0 0 [.mk 1 1 0 1 []]) = [(1, false), (1, true)] := by
   rw [walkBoth_eq]; decide
 example : walkEnter (checkAll .dflt) false true true ex = [0, 1, 2, 3, 5] := by
   rw [walkEnter_eq]; decide
